@@ -338,9 +338,14 @@ impl<'p> Gen<'p> {
         let apis: Vec<Api> = self.apis.iter().copied().filter(|a| rw || !a.is_read()).collect();
         let api = if apis.is_empty() { Api::Lock } else { *self.rng.pick(&apis) };
         let body = self.body(w, t, api);
+        let rebuild = self.rng.chance(self.p.rebuild_pct, 100);
+        let mutate = rebuild
+            && matches!(&w.targets[t], TSpec::Coll { kind: CollKind::Retry, cont: ContKind::Vec, members, poison: false } if !members.is_empty() && matches!(members[0], TSpec::Leaf(_)))
+            && self.rng.chance(1, 2);
         Acq {
             target: t,
-            rebuild: self.rng.chance(self.p.rebuild_pct, 100),
+            rebuild,
+            mutate,
             api,
             lent_key: api.is_scoped() && self.rng.chance(self.p.lent_pct, 100),
             body,
@@ -507,7 +512,18 @@ pub fn gen_panics(profile: &str, seed: u64, poison_heavy: bool) -> Scenario {
         p.leaves = (1, 4);
         p.threads = (1, 3);
     }
-    gen_general(profile, seed, &p)
+    let mut scn = gen_general(profile, seed, &p);
+    // some sections (panicking or not) run inside a destructor during an unrelated unwind
+    let mut rng = Rng::new(seed ^ 0xF00D);
+    for th in scn.program.threads.iter_mut() {
+        for st in th.iter_mut() {
+            if matches!(st, Step::Acquire(_)) && rng.chance(7, 100) {
+                let inner = st.clone();
+                *st = Step::InUnwind(Box::new(inner));
+            }
+        }
+    }
+    scn
 }
 
 /// C06: key histories. Every thread works on its own locks (leaked guards keep locks held
@@ -686,7 +702,7 @@ pub fn gen_c07(seed: u64) -> Scenario {
             let api = if rw && g.rng.chance(1, 2) { Api::Read } else { Api::Lock };
             let nflat = w.flatten(&w.targets[t], None).len();
             let body = if nflat > 0 { vec![BodyOp::Read(g.rng.below(nflat))] } else { vec![] };
-            steps.push(Step::Acquire(Acq { target: t, rebuild, api, lent_key: false, body, release: Release::Drop }));
+            steps.push(Step::Acquire(Acq { target: t, rebuild, api, lent_key: false, body, release: Release::Drop, mutate: false }));
         }
     }
     let mut cfg = g.cfg(60);
@@ -748,7 +764,7 @@ pub fn gen_c08(seed: u64) -> Scenario {
             let rw = w.all_rw(&w.targets[t]);
             let apis: Vec<Api> = [Api::Lock, Api::ScopedLock, Api::Read, Api::ScopedRead].into_iter().filter(|a| rw || !a.is_read()).collect();
             let api = *g.rng.pick(&apis);
-            steps.push(Step::Acquire(Acq { target: t, rebuild: g.rng.chance(1, 3), api, lent_key: api.is_scoped() && g.rng.chance(1, 2), body: vec![], release: Release::Drop }));
+            steps.push(Step::Acquire(Acq { target: t, rebuild: g.rng.chance(1, 3), api, lent_key: api.is_scoped() && g.rng.chance(1, 2), body: vec![], release: Release::Drop, mutate: false }));
         }
         threads.push(steps);
     }
@@ -826,9 +842,27 @@ pub fn gen_quiescent(seed: u64, nonacq: bool) -> Scenario {
         };
         let my_gate = gates;
         gates += 1;
-        holders.push(vec![Step::Acquire(Acq { target: ti, rebuild: false, api, lent_key: scoped && g.rng.chance(1, 2), body: vec![BodyOp::GateOpen(my_gate), BodyOp::GateWait(done_gate)], release: Release::Drop })]);
+        holders.push(vec![Step::Acquire(Acq { target: ti, rebuild: false, api, lent_key: scoped && g.rng.chance(1, 2), body: vec![BodyOp::GateOpen(my_gate), BodyOp::GateWait(done_gate)], release: Release::Drop, mutate: false })]);
         if holders.len() >= 4 {
             break;
+        }
+    }
+    // sometimes a thread panics inside a hold and lets go before the tester starts: the locks
+    // are free again, the Poisonables among them poisoned
+    if !nonacq && g.rng.chance(1, 4) {
+        let free_elems: Vec<Elem> = all.iter().filter(|e| !holders.iter().any(|h| matches!(&h[0], Step::Acquire(a) if w.elems(&w.targets[a.target]).contains(e)))).cloned().collect();
+        if !free_elems.is_empty() {
+            let es = g.random_subset(&free_elems, (1, 2));
+            let spec = g.target_over(&w, &es, 1, false);
+            w.targets.push(spec);
+            let ti = w.targets.len() - 1;
+            let api = *g.rng.pick(&[Api::Lock, Api::ScopedLock]);
+            let my_gate = gates;
+            gates += 1;
+            holders.push(vec![
+                Step::Acquire(Acq { target: ti, rebuild: false, api, lent_key: false, body: vec![BodyOp::Panic], release: Release::Drop, mutate: false }),
+                Step::GateOpen(my_gate),
+            ]);
         }
     }
     let mut tester: Vec<Step> = (1..gates).map(Step::GateWait).collect();
@@ -847,7 +881,7 @@ pub fn gen_quiescent(seed: u64, nonacq: bool) -> Scenario {
                 let rw = w.all_rw(&w.targets[t]);
                 let apis: Vec<Api> = [Api::TryLock, Api::ScopedTryLock, Api::TryRead, Api::ScopedTryRead].into_iter().filter(|a| rw || !a.is_read()).collect();
                 let api = *g.rng.pick(&apis);
-                tester.push(Step::Acquire(Acq { target: t, rebuild: false, api, lent_key: api.is_scoped() && g.rng.chance(1, 2), body: vec![BodyOp::NonAcq(op, any_t)], release: Release::Drop }));
+                tester.push(Step::Acquire(Acq { target: t, rebuild: false, api, lent_key: api.is_scoped() && g.rng.chance(1, 2), body: vec![BodyOp::NonAcq(op, any_t)], release: Release::Drop, mutate: false }));
             }
         } else {
             let rw = w.all_rw(&w.targets[t]);
@@ -855,8 +889,27 @@ pub fn gen_quiescent(seed: u64, nonacq: bool) -> Scenario {
             let api = *g.rng.pick(&apis);
             let nflat = w.flatten(&w.targets[t], None).len();
             let body = if nflat > 0 && g.rng.chance(1, 2) { vec![BodyOp::Read(g.rng.below(nflat))] } else { vec![] };
-            tester.push(Step::Acquire(Acq { target: t, rebuild: g.rng.chance(1, 4), api, lent_key: api.is_scoped() && g.rng.chance(1, 2), body, release: if g.rng.chance(1, 3) { Release::Unlock } else { Release::Drop } }));
+            tester.push(Step::Acquire(Acq { target: t, rebuild: g.rng.chance(1, 4), api, lent_key: api.is_scoped() && g.rng.chance(1, 2), body, release: if g.rng.chance(1, 3) { Release::Unlock } else { Release::Drop }, mutate: false }));
         }
+    }
+    if nonacq && g.rng.chance(1, 4) {
+        // get_mut / into_inner / into_child / ... on a collection whose guard was leaked: they must
+        // not touch the raw locks at all (a leaked guard holds them for ever)
+        let n = g.rng.range(1, 3);
+        let mut lids = Vec::new();
+        for _ in 0..n {
+            w.leaves.push(*g.rng.pick(&LeafKind::ALL));
+            lids.push(w.leaves.len() - 1);
+        }
+        let kind = *g.rng.pick(&[OwnKind::Boxed, OwnKind::Retry, OwnKind::Owned]);
+        let cont = g.pick_cont(n);
+        w.targets.push(TSpec::Own { kind, cont, leaves: lids, ctor: Ctor::New, poison: g.rng.chance(1, 4) });
+        let ti = w.targets.len() - 1;
+        let rw = w.all_rw(&w.targets[ti]);
+        let api = if rw && g.rng.chance(1, 2) { Api::Read } else { Api::Lock };
+        tester.push(Step::Acquire(Acq { target: ti, rebuild: false, api, lent_key: false, body: vec![], release: Release::Forget, mutate: false }));
+        let d = *g.rng.pick(&[Dtor::IntoChild, Dtor::IntoInner, Dtor::IntoIter, Dtor::GetMut, Dtor::ChildMut, Dtor::IterMut, Dtor::AsMut, Dtor::Drop]);
+        tester.push(Step::Destroy(ti, d));
     }
     tester.push(Step::GateOpen(done_gate));
     w.gates = gates;
@@ -929,7 +982,7 @@ pub fn gen_c12(seed: u64) -> Scenario {
         let ti = w.targets.len() - 1;
         let api = if rw && g.rng.chance(1, 2) { Api::Read } else { Api::Lock };
         let body: Vec<BodyOp> = (0..g.rng.range(1, 3)).map(|_| BodyOp::Yield).collect();
-        threads.push(vec![Step::Acquire(Acq { target: ti, rebuild: false, api, lent_key: false, body, release: Release::Drop })]);
+        threads.push(vec![Step::Acquire(Acq { target: ti, rebuild: false, api, lent_key: false, body, release: Release::Drop, mutate: false })]);
     }
     let mut cfg = g.cfg(60);
     cfg.faults.try_refuse_pct = 0;
@@ -1015,7 +1068,7 @@ pub fn c11_variants(base: &Scenario, seed: u64) -> Vec<Scenario> {
                         let l = cands[rng.below(cands.len())];
                         s.world.targets.push(TSpec::Leaf(l));
                         let tl = s.world.targets.len() - 1;
-                        s.program.threads.push(vec![Step::Acquire(Acq { target: tl, rebuild: false, api: Api::TryLock, lent_key: false, body: vec![], release: Release::Drop })]);
+                        s.program.threads.push(vec![Step::Acquire(Acq { target: tl, rebuild: false, api: Api::TryLock, lent_key: false, body: vec![], release: Release::Drop, mutate: false })]);
                         let tid = s.program.threads.len() - 1;
                         s.cfg.faults.oneshots = vec![crate::sched::OneShot { tid, api_idx: 0, op_idx: 0, when: if rng.chance(1, 2) { crate::sched::When::Before } else { crate::sched::When::After } }];
                         if let Step::Acquire(a2) = &mut s.program.threads[ti][si] {
@@ -1211,11 +1264,12 @@ pub fn gen_c09_deep(seed: u64) -> Scenario {
     let cont = *rng.pick(&[ContKind::Vec, ContKind::BoxSlice, ContKind::Array, ContKind::Tuple]);
     let victim_target = TSpec::Coll { kind: CollKind::Retry, cont, members: vec![TSpec::Leaf(0), TSpec::Leaf(1)], poison: false };
     let w = WorldSpec { leaves, units: vec![], slots, targets: vec![victim_target, TSpec::Leaf(0), TSpec::Leaf(1)], datas: vec![], gates: 0, tags: 0 };
-    let cycles = rng.range(1, 20);
+    // mostly shallow, sometimes deep: 2 * cycles + 1 knock-backs of one acquisition
+    let cycles = if rng.chance(1, 6) { rng.range(20, 150) } else { rng.range(1, 20) };
     // gates: gx_k = k, gy_k = (cycles + 1) + k
     let gx = |k: usize| k;
     let gy = |k: usize| cycles + 1 + k;
-    let hold = |target: usize, body: Vec<BodyOp>| Step::Acquire(Acq { target, rebuild: false, api: Api::Lock, lent_key: false, body, release: Release::Drop });
+    let hold = |target: usize, body: Vec<BodyOp>| Step::Acquire(Acq { target, rebuild: false, api: Api::Lock, lent_key: false, body, release: Release::Drop, mutate: false });
     let (a, b, victim) = (0usize, 1usize, 0usize);
     let mut x = vec![hold(1, vec![BodyOp::GateOpen(gx(0)), BodyOp::GateWait(gy(0)), BodyOp::WaitBlocked(victim, a)])];
     let mut y = vec![hold(2, vec![BodyOp::GateOpen(gy(0)), BodyOp::GateWait(gx(1)), BodyOp::WaitBlocked(victim, b)])];
@@ -1234,7 +1288,7 @@ pub fn gen_c09_deep(seed: u64) -> Scenario {
     let v = vec![
         Step::GateWait(gx(0)),
         Step::GateWait(gy(0)),
-        Step::Acquire(Acq { target: 0, rebuild: false, api, lent_key: api.is_scoped() && rng.chance(1, 2), body: vec![BodyOp::Read(0), BodyOp::Read(1)], release: Release::Drop }),
+        Step::Acquire(Acq { target: 0, rebuild: false, api, lent_key: api.is_scoped() && rng.chance(1, 2), body: vec![BodyOp::Read(0), BodyOp::Read(1)], release: Release::Drop, mutate: false }),
     ];
     let mut w = w;
     w.gates = 2 * (cycles + 1) + 1;
@@ -1242,8 +1296,8 @@ pub fn gen_c09_deep(seed: u64) -> Scenario {
     let mut g = Gen::new(seed, &p);
     let mut cfg = g.cfg(200);
     cfg.faults.try_refuse_pct = 0;
-    cfg.max_steps = 8000;
-    cfg.fair_after = 4000;
+    cfg.max_steps = 60000;
+    cfg.fair_after = 30000;
     Scenario { world: w, program: Program { threads: vec![v, x, y] }, cfg, profile: "C09".into() }
 }
 
@@ -1278,7 +1332,7 @@ pub fn gen_c08_big(seed: u64) -> Scenario {
     let mut steps = Vec::new();
     for t in 0..nt {
         let api = if rw && rng.chance(1, 2) { Api::Read } else { Api::Lock };
-        steps.push(Step::Acquire(Acq { target: t, rebuild: rng.chance(1, 3), api, lent_key: false, body: vec![], release: Release::Drop }));
+        steps.push(Step::Acquire(Acq { target: t, rebuild: rng.chance(1, 3), api, lent_key: false, body: vec![], release: Release::Drop, mutate: false }));
     }
     let p = Params::base();
     let mut g = Gen::new(seed, &p);
